@@ -155,7 +155,7 @@ impl LegOpts {
 			shards: threads,
 			threads,
 			confirm: 3,
-			max_shrink_iters: 60,
+			max_shrink_iters: 24,
 			rule,
 		}
 	}
@@ -482,6 +482,12 @@ impl Engine {
 						self.record(leg, &case, &o);
 						let Some(f) = o.failure else { continue };
 
+						if self.open_known(&f.signature).is_some() {
+							// known finding (possibly schedule-dependent): report once, keep exploring
+							self.report(leg, &case, f);
+							continue;
+						}
+
 						// confirm (real-time media): must reproduce with same signature
 						let mut confirmed = true;
 						for _ in 0..opts.confirm {
@@ -499,6 +505,12 @@ impl Engine {
 							eprintln!(
 								"note: non-reproducing failure in {} leg {leg} (counted as timing anomaly): {}",
 								self.id, f.signature
+							);
+							let dir = Path::new(VERIF_ROOT).join("out").join("anomalies");
+							let _ = std::fs::create_dir_all(&dir);
+							let _ = std::fs::write(
+								dir.join(format!("{}-{}-{:016x}.txt", self.id, leg, fnv64(f.message.as_bytes()))),
+								format!("{}\n{}\n", f.signature, f.message),
 							);
 							continue;
 						}
